@@ -346,6 +346,47 @@ def check(run: Run, prog: Program, model: Model, tier: str) -> None:
     # ---------------------------------------------------------------- GROUP-GUARD (two entries, same head)
     _group_guard(run, prog, model, f, rec)
 
+    # ---------------------------------------------------------------- OPTIONAL-KEY-EQ
+    # rollout re-creates every optional marker from a piece of the split key (a plain str); the result equals the nested
+    # mapping only if optional(a) == optional(b) - and their hashes - are decided by a == b alone
+    oc = prog.cls("declaration.types._optional.optional")
+    for mname in ("__eq__", "__hash__"):
+        m = oc.methods.get(mname)
+        if m is None:
+            rec("OPTIONAL-KEY-EQ", f"optional.{mname}", "violated", f"optional has no {mname}: re-created markers never equal the original ones")
+            continue
+        it = Interp(prog, model, unroll=1)
+
+        def run_o(i: Interp) -> V:
+            a = i._construct(oc, [Sym("key_a", None, ("param", "a"))], {}, None)
+            b = i._construct(oc, [Sym("key_b", None, ("param", "b"))], {}, None)
+            return i.call_function(m, [b] if mname == "__eq__" else [], {}, self_val=a)
+        foreign: List[str] = []
+        seen = 0
+        for p in it.run_paths(run_o):
+            if p.outcome != "return":
+                continue
+            seen += 1
+            for k, t, b in p.facts:
+                if isinstance(t, Term) and t.op == "isinstance":
+                    continue
+                if isinstance(t, Term) and t.op == "eq" and {a_.key() for a_ in t.args if isinstance(a_, V)} == {"key_a", "key_b"}:
+                    continue
+                foreign.append(("" if b else "not ") + k[:70])
+            if mname == "__hash__" and p.value is not None:
+                for x in _walk(p.value):
+                    if isinstance(x, Term) and ((x.op == "attr" and len(x.args) == 2 and x.args[1] == "__class__" and "key_a" in x.key())
+                                                or (x.op == "call" and x.args and x.args[0] == "builtins.type")):
+                        foreign.append(f"hash mixes in {x.key()[:50]}")
+        if foreign:
+            rec("OPTIONAL-KEY-EQ", f"optional.{mname}", "violated",
+                f"the outcome also depends on `{foreign[0]}`: a marker re-created from a plain str piece differs from one built "
+                "on an equal key of another class (a str subclass / enum member)")
+        elif seen:
+            rec("OPTIONAL-KEY-EQ", f"optional.{mname}", "holds")
+        else:
+            rec("OPTIONAL-KEY-EQ", f"optional.{mname}", "undecided", "no returning path")
+
     # ---------------------------------------------------------------- report
     for (rule, construct), vs in sorted(verdicts.items()):
         bad = sorted({d for s_, d in vs if s_ == "violated"})
@@ -371,6 +412,7 @@ _WITNESS = {
     "LEAF-VALUE": "rollout({'a.b': v})['a']['b'] is not v",
     "ELLIPSIS-PASS": "rollout({...: ..., 'a.b': 1}) loses the `...: ...` entry",
     "GROUP-GUARD": "rollout({'a.b': 1, 'x': 0, 'a.c': 2}) != {'a': {'b': 1, 'c': 2}, 'x': 0}",
+    "OPTIONAL-KEY-EQ": "class F(str, Enum): ZIP = 'zip'; rollout({optional('a.zip'): 1}) != {'a': {optional(F.ZIP): 1}}",
 }
 
 
